@@ -27,7 +27,26 @@
 //	                 every method one critical section the probers always block and their results
 //	                 are those after A's call; anything they can see while A is stopped - a count
 //	                 between two updates, a store without the entry that is being replaced - must
-//	                 still have a sequential explanation.
+//	                 still have a sequential explanation.  A third of the configurations hold 65..300
+//	                 entries (next to every multiple of 64, and anywhere): Clear, and a Put whose value
+//	                 has many victims or fills the limit exactly, are stopped at the hook call for the
+//	                 k-th entry to go - k such that the number left is next to a multiple of 64 (16, 100,
+//	                 128), at either end, or anywhere - so the probers are already queued on the mutex
+//	                 when the call goes on: if it lets go of the mutex anywhere later, they get in.
+//	mode=4 (pollers) one writer, 1-3 pollers.  Per round the writer rebuilds a cache of 2..6 or 65..300
+//	                 entries (sizes 1, or v mod (limit+1) with zero-size entries on top) and then makes
+//	                 the racing calls: Clear; one Put that fills the limit exactly (size == limit, at
+//	                 least two entries present; on small caches again and again after refills); one Put
+//	                 with many victims; Puts with one victim each; Removes and replacing Puts; Clear /
+//	                 partial refill / Clear.  Meanwhile the pollers ask Len, Size, Has (eldest, newest,
+//	                 arriving key) in a loop, and Get of those keys up to three times a round.  Of a run
+//	                 of equal answers only the first and the last enter the history (see executePoll).
+//	mode=5 (handoff) small caches; per act a helper brings the cache's sync.Mutex into starvation mode
+//	                 with goroutine A first in the queue and one to three probers behind it (see type
+//	                 handoff): every Unlock inside A's one call - evicting, exactly-filling, replacing or
+//	                 refused Put, Remove, Clear, Get, Has, Len, Size - hands the mutex to a prober, also
+//	                 where Lock follows at once and no hook is called in between (a method made of two
+//	                 critical sections, a check-then-act through another public method).
 //
 // Per history:
 //
@@ -62,6 +81,7 @@ import (
 	"flag"
 	"fmt"
 	"os"
+	"reflect"
 	"runtime"
 	"sort"
 	"strconv"
@@ -69,6 +89,7 @@ import (
 	"sync"
 	"sync/atomic"
 	"time"
+	"unsafe"
 
 	"github.com/anishathalye/porcupine"
 	"github.com/creachadair/mds/cache"
@@ -118,7 +139,18 @@ type config struct {
 	ops    int // random: calls per goroutine; duel: phases
 	keys   int
 	limit  int64
-	sizeMd int // 0 unit, 3 = v mod 3
+	sizeMd int // 0 unit, m = v mod m (3 in the small workloads; limit+1 in the big ones, so that a value can fill the limit exactly)
+}
+
+// keyspace is the number of keys a history of this configuration may use (0..keyspace-1).
+func (c config) keyspace() int {
+	if c.mode == 4 {
+		return c.keys + 8
+	}
+	if c.mode == 5 {
+		return c.keys + 2 // the arriving key and the helper's key
+	}
+	return c.keys + 1 // key c.keys is the duel mode's second key
 }
 
 func (c config) String() string {
@@ -189,6 +221,102 @@ type world struct {
 	yields int64
 	detail []string
 	gate   atomic.Pointer[gate] // staged mode: where goroutine A stops inside its call
+	hand   atomic.Pointer[handoff]
+	mword  *int32 // the state word of the cache's mutex (handoff mode: read only, to see whether it is in starvation mode)
+}
+
+// handoff mode (mode=5).  A sync.Mutex whose waiter has waited for more than a millisecond and then
+// loses the mutex once more to a goroutine that did not wait goes into starvation mode: from then on
+// Unlock hands the mutex to the first waiter, and a goroutine that calls Lock queues behind the others
+// even if it has only just unlocked.  The helper goroutine H brings the cache's mutex into that mode with
+// A first in the queue and the probers behind it: H stops in the size function of its own Put (mutex
+// held) until A and then the probers are blocked on the mutex and a millisecond and a half has passed,
+// finishes the Put and at once makes a second one, which takes the mutex before the woken A gets to it; A
+// finds the mutex taken again and declares starvation; H, stopped in the size function of its second Put
+// until it sees that, returns.  Now A is handed the mutex, and EVERY Unlock inside A's call - also one
+// that is followed by Lock at once, with no hook call in between - hands the mutex to a prober, whose call
+// then runs in the middle of A's.  If every method is one critical section the probers simply run after A.
+// Nothing in the verdict depends on the timing: if starvation mode is not reached the act is an ordinary
+// contended one (statistic handoffArmed).
+type handoff struct {
+	owner   atomic.Int64 // H's goroutine id
+	stops   [2]hookCall  // where H stops in its first and in its second call
+	stage   atomic.Int32
+	startA  chan struct{}
+	startP  chan struct{}
+	a       *prober
+	probers []*prober
+}
+
+// hookCall names one call of a hook: the size function ('s') or the eviction callback ('c') on a value.
+type hookCall struct {
+	kind byte
+	val  int
+}
+
+var handActs, handArmed int64
+
+// waitBlocked waits until p's goroutine has started and then has either finished or is blocked.
+func waitBlocked(p *prober, buf []byte) {
+	for i := 0; p.started.Load() == 0 && i < 1000000; i++ {
+		runtime.Gosched()
+	}
+	for i := 0; p.done.Load() == 0; i++ {
+		if i >= 2 && blockedStates[stateOf(p.gid.Load(), buf)] {
+			break
+		}
+		if i > 200000 {
+			atomic.AddInt64(&gateGaveUp, 1)
+			break
+		}
+		runtime.Gosched()
+	}
+}
+
+func (w *world) atHand(kind byte, v int) {
+	h := w.hand.Load()
+	if h == nil || h.owner.Load() != goid() {
+		return
+	}
+	at := hookCall{kind, v}
+	switch {
+	case at == h.stops[0] && h.stage.CompareAndSwap(0, 1):
+		buf := make([]byte, 1<<16)
+		close(h.startA)
+		waitBlocked(h.a, buf)
+		close(h.startP)
+		for _, p := range h.probers {
+			waitBlocked(p, buf)
+		}
+		for t := time.Now(); time.Since(t) < 1500*time.Microsecond; {
+			runtime.Gosched()
+		}
+	case at == h.stops[1] && h.stage.CompareAndSwap(1, 2):
+		for i := 0; i < 20000 && h.a.done.Load() == 0; i++ {
+			if w.mword != nil && atomic.LoadInt32(w.mword)&4 != 0 { // mutexStarving
+				atomic.AddInt64(&handArmed, 1)
+				break
+			}
+			runtime.Gosched()
+		}
+	}
+}
+
+// mutexWord finds the sync.Mutex (or sync.RWMutex, whose first field is one) among the fields of the
+// cache and returns the address of its state word; nil if there is none.
+func mutexWord(cc any) *int32 {
+	v := reflect.ValueOf(cc)
+	if v.Kind() != reflect.Pointer || v.Elem().Kind() != reflect.Struct {
+		return nil
+	}
+	v = v.Elem()
+	for i := 0; i < v.NumField(); i++ {
+		f := v.Field(i)
+		if t := f.Type().String(); (t == "sync.Mutex" || t == "sync.RWMutex") && f.CanAddr() {
+			return (*int32)(unsafe.Pointer(f.UnsafeAddr()))
+		}
+	}
+	return nil
 }
 
 // A gate stops one goroutine (owner) inside a call of the cache: at the first call of the hook kind
@@ -277,6 +405,7 @@ func newWorld(c config) *world {
 	cb := func(k, v int) {
 		stretch()
 		w.atGate('c', v)
+		w.atHand('c', v)
 		id := goid()
 		w.hmu.Lock()
 		w.global = append(w.global, kv{k, v})
@@ -285,8 +414,11 @@ func newWorld(c config) *world {
 		}
 		w.hmu.Unlock()
 	}
-	cfg := cache.LRU[int, int]().OnEvict(cb).WithSize(func(v int) int64 { stretch(); w.atGate('s', v); return c.size(v) })
+	cfg := cache.LRU[int, int]().OnEvict(cb).WithSize(func(v int) int64 { stretch(); w.atGate('s', v); w.atHand('s', v); return c.size(v) })
 	w.cc = cache.New(c.limit, cfg)
+	if c.mode == 5 {
+		w.mword = mutexWord(w.cc)
+	}
 	return w
 }
 
@@ -424,7 +556,7 @@ func (w *world) quiesce(hist []rec) ([]rec, []string) {
 	ln := add(input{kind: 'l'})
 	sz := add(input{kind: 's'})
 	present, total := int64(0), int64(0)
-	for k := 0; k <= c.keys; k++ { // key c.keys is the duel mode's second key
+	for k := 0; k < c.keyspace(); k++ {
 		h := add(input{kind: 'h', key: k})
 		g := add(input{kind: 'g', key: k})
 		if h.panicked != "" || g.panicked != "" {
@@ -740,6 +872,9 @@ func executeStaged(c config) (hist []rec, global []kv, reasons, detail []string)
 		if c.sizeMd == 0 {
 			return base
 		}
+		if c.sizeMd > 3 {
+			return (serial+1)*c.sizeMd + res%c.sizeMd
+		}
 		return base - base%c.sizeMd + res%c.sizeMd
 	}
 	cur := w.register()
@@ -768,7 +903,97 @@ func executeStaged(c config) (hist []rec, global []kv, reasons, detail []string)
 		var probes []input
 		kind := r.intn(7)
 		newKey := c.keys // a key the driver never uses
+		if c.limit >= 8 {
+			// a big cache (65..300 entries in the generated configurations): mostly Clear and Puts with many
+			// victims, stopped after k evictions; the one-victim Put, the replacing Put and Remove as well
+			kind = []int{7, 7, 7, 8, 8, 8, 0, 3, 4, 6}[r.intn(10)]
+			if unit && kind == 8 {
+				kind = 7 // with unit sizes a Put has one victim at most
+			}
+		}
+		// atMultiple picks how many of n entries have gone when A stops: mostly so that the number left is
+		// next to a multiple of 64 (or of 16, 100), at both ends, or anywhere
+		atMultiple := func(n int) int {
+			if n <= 1 {
+				return 0
+			}
+			j := r.intn(n)
+			switch r.intn(6) {
+			case 0, 1, 2:
+				if n > 60 {
+					left := 64*(1+r.intn((n+4)/64)) + r.intn(5) - 2
+					j = n - left
+				}
+			case 3:
+				q := []int{16, 32, 100, 128}[r.intn(4)]
+				if n > q {
+					j = n - (q*(1+r.intn(n/q)) + r.intn(3) - 1)
+				}
+			case 4:
+				j = []int{0, 1, n - 2, n - 1}[r.intn(4)]
+			}
+			if j < 0 {
+				j = 0
+			}
+			if j > n-1 {
+				j = n - 1
+			}
+			return j
+		}
 		switch kind {
+		case 7: // Clear of a big cache, stopped at the hook call for the j-th entry to go
+			fill()
+			if !unit {
+				for z := r.intn(3); z > 0 && len(ents) < c.keys; z-- {
+					put(0) // zero-size entries on top of the full cache
+				}
+			}
+			n := len(ents)
+			j := atMultiple(n)
+			opA = input{kind: 'c'}
+			stopAt = ents[j]
+			nx := j + 1
+			if nx > n-1 {
+				nx = n - 1
+			}
+			probes = []input{{kind: 'l'}, {kind: 's'}, {kind: 'h', key: ents[j].k}, {kind: 'g', key: ents[nx].k}, {kind: 'g', key: ents[n-1].k},
+				{kind: 'l'}, {kind: 's'}, {kind: 'h', key: ents[0].k}, {kind: 'g', key: ents[0].k}, {kind: 'l'}}
+		case 8: // a Put with many victims (sizes are v mod (limit+1): a value may fill the limit exactly), stopped at the j-th
+			fill()
+			n := len(ents)
+			sz := int(c.limit)
+			switch r.intn(3) {
+			case 0: // fills the cache exactly: everything goes
+			case 1:
+				sz = 2 + r.intn(n)
+			default:
+				sz = n - atMultiple(n)
+			}
+			if sz < 2 {
+				sz = 2
+			}
+			if int64(sz) > c.limit {
+				sz = int(c.limit)
+			}
+			target := newKey
+			if r.intn(4) == 0 {
+				target = ents[r.intn(n)].k // replaces an entry as well
+			}
+			opA = input{kind: 'p', key: target, val: val(sz)}
+			victims := sz - int(c.limit-int64(n))
+			if target != newKey {
+				victims--
+			}
+			if victims < 1 {
+				victims = 1
+			}
+			if victims > n {
+				victims = n
+			}
+			j := atMultiple(victims)
+			stopAt = ents[j]
+			probes = []input{{kind: 'l'}, {kind: 's'}, {kind: 'g', key: ents[j].k}, {kind: 'h', key: ents[j].k}, {kind: 'g', key: target}, {kind: 'g', key: ents[n-1].k},
+				{kind: 'h', key: ents[0].k}, {kind: 'l'}, {kind: 's'}}
 		case 0, 5, 6: // a Put that has to evict (6: the prober changes the cache too)
 			fill()
 			res := 1
@@ -906,41 +1131,430 @@ func executeStaged(c config) (hist []rec, global []kv, reasons, detail []string)
 	return hist, w.global, reasons, w.detail
 }
 
+// executePoll: mode=4 (see the package comment).  Goroutine 0 is the only writer: in every round it
+// rebuilds a known state (Clear + Puts, sequentially) and then makes the round's racing calls while the
+// pollers (goroutines 1..g-1) call Len, Size, Has and now and then Get in a loop.  A poller's Len, Size
+// and Has observations are thinned before the history is checked: of a run of equal answers to the same
+// question only the first and the last are kept.  Dropping calls that do not change the cache from a
+// history cannot make a linearizable history non-linearizable, so no false alarm comes from this; what is
+// kept still carries every change of an answer with its real-time bounds.
+func executePoll(c config) (hist []rec, global []kv, reasons, detail []string) {
+	w := newWorld(c)
+	r := newRng(c.seed*11000027 + uint64(c.run)*15485863 + 23)
+	unit := c.sizeMd == 0
+	serial := 0
+	val := func(res int) int {
+		serial++
+		if unit {
+			return serial
+		}
+		return serial*c.sizeMd + res%c.sizeMd
+	}
+	n := c.keys
+	np := c.g - 1
+	if np < 1 {
+		np = 1
+	}
+	extra := func(i int) int { return n + i%8 } // keys the fill never uses
+	// what the pollers ask in this round; written by the writer before it raises `racing`
+	type question struct {
+		in  input
+		get bool // a Get (changes recency, never thinned): asked a few times per round only
+	}
+	var asks atomic.Pointer[[]question]
+	var racing, stop atomic.Int32
+	polls := make([]atomic.Int64, np)
+	per := make([][]rec, np+1)
+	var wg sync.WaitGroup
+	few := runtime.GOMAXPROCS(0) <= np
+	for i := 0; i < np; i++ {
+		wg.Add(1)
+		go func(i int) {
+			defer wg.Done()
+			mine := w.register()
+			type stream struct {
+				has  bool
+				last rec // the latest record of a run of equal answers (not yet kept unless it was the first)
+				kept bool
+			}
+			streams := map[input]*stream{}
+			flush := func() {
+				for _, st := range streams {
+					if st.has && !st.kept {
+						per[i+1] = append(per[i+1], st.last)
+					}
+				}
+				streams = map[input]*stream{}
+			}
+			gets, turn := 0, i
+			for stop.Load() == 0 {
+				if racing.Load() == 0 {
+					gets = 0
+					runtime.Gosched()
+					continue
+				}
+				qs := *asks.Load()
+				q := qs[turn%len(qs)]
+				turn++
+				if q.get {
+					if gets >= 3 {
+						continue
+					}
+					gets++
+				}
+				x := w.do(i+1, q.in, mine)
+				polls[i].Add(1)
+				if q.get || x.panicked != "" || len(x.out.ev) != 0 {
+					per[i+1] = append(per[i+1], x)
+				} else {
+					st := streams[q.in]
+					if st == nil {
+						st = &stream{}
+						streams[q.in] = st
+					}
+					if st.has && st.last.out.ok == x.out.ok && st.last.out.n == x.out.n {
+						st.last, st.kept = x, false
+					} else {
+						if st.has && !st.kept {
+							per[i+1] = append(per[i+1], st.last)
+						}
+						per[i+1] = append(per[i+1], x)
+						st.has, st.last, st.kept = true, x, true
+					}
+				}
+				if few || turn%16 == 0 {
+					runtime.Gosched()
+				}
+				if len(per[i+1]) > 4000 {
+					break // a bound on the history, never reached on the unchanged tree
+				}
+			}
+			flush()
+		}(i)
+	}
+	cur := w.register()
+	wr := func(in input) rec {
+		x := w.do(0, in, cur)
+		per[0] = append(per[0], x)
+		return x
+	}
+	for round := 0; round < c.ops; round++ {
+		wr(input{kind: 'c'})
+		var ents []kv // what the writer has put, oldest first
+		put := func(k, res int) {
+			e := kv{k, val(res)}
+			ents = append(ents, e)
+			wr(input{kind: 'p', key: e.k, val: e.v})
+		}
+		for k := 0; k < n && int64(k) < c.limit; k++ {
+			put(k, 1)
+		}
+		if !unit {
+			for z := r.intn(3); z > 0; z-- {
+				put(extra(5+z), 0) // zero-size entries on top of the full cache
+			}
+		}
+		if r.intn(3) == 0 && len(ents) > 2 {
+			// a few Gets, so that recency is not the order of the keys
+			for z := 1 + r.intn(3); z > 0; z-- {
+				j := r.intn(len(ents))
+				wr(input{kind: 'g', key: ents[j].k})
+				e := ents[j]
+				ents = append(append(ents[:j:j], ents[j+1:]...), e)
+			}
+		}
+		m := len(ents)
+		var prog []input
+		kind := r.intn(6)
+		if unit && (kind == 1 || kind == 2) {
+			kind = []int{0, 3}[r.intn(2)]
+		}
+		target := extra(0)
+		switch kind {
+		case 0: // Clear
+			prog = []input{{kind: 'c'}}
+		case 1: // one Put that fills the limit exactly (size == limit): every entry goes
+			if r.intn(4) == 0 {
+				target = ents[r.intn(m)].k
+			}
+			prog = []input{{kind: 'p', key: target, val: val(int(c.limit))}}
+			if n <= 8 {
+				// small cache: again and again - refill with two to four entries, then the exactly-filling Put
+				for cyc := 2 + r.intn(6); cyc > 0; cyc-- {
+					for e := 2 + r.intn(3); e > 0; e-- {
+						prog = append(prog, input{kind: 'p', key: r.intn(n), val: val(r.intn(2))})
+					}
+					prog = append(prog, input{kind: 'p', key: extra(r.intn(2)), val: val(int(c.limit))})
+				}
+			}
+		case 2: // one Put with many victims
+			sz := 2 + r.intn(m)
+			if int64(sz) > c.limit {
+				sz = int(c.limit)
+			}
+			prog = []input{{kind: 'p', key: target, val: val(sz)}}
+		case 3: // Puts of new keys, each with one victim
+			for z := 1 + r.intn(4); z > 0; z-- {
+				prog = append(prog, input{kind: 'p', key: extra(z), val: val(1)})
+			}
+		case 4: // Removes and replacing Puts all over the cache
+			for z := 2 + r.intn(4); z > 0; z-- {
+				e := ents[r.intn(m)]
+				if r.intn(2) == 0 {
+					prog = append(prog, input{kind: 'r', key: e.k})
+				} else {
+					prog = append(prog, input{kind: 'p', key: e.k, val: val(1)})
+				}
+			}
+		default: // Clear, refill a part, Clear again
+			prog = []input{{kind: 'c'}}
+			for k := 0; k < m/2+1 && k < n; k++ {
+				prog = append(prog, input{kind: 'p', key: k, val: val(1)})
+			}
+			prog = append(prog, input{kind: 'c'})
+		}
+		qs := []question{{in: input{kind: 'l'}}, {in: input{kind: 's'}}, {in: input{kind: 'h', key: ents[0].k}}, {in: input{kind: 'l'}}, {in: input{kind: 's'}},
+			{in: input{kind: 'h', key: ents[m-1].k}}, {in: input{kind: 'h', key: target}}, {in: input{kind: 'g', key: ents[0].k}, get: true},
+			{in: input{kind: 'l'}}, {in: input{kind: 's'}}, {in: input{kind: 'g', key: ents[m-1].k}, get: true}, {in: input{kind: 'g', key: target}, get: true}}
+		if r.intn(2) == 0 {
+			qs = qs[:7] // Len, Size and Has only
+		}
+		asks.Store(&qs)
+		marks := make([]int64, np)
+		for i := range marks {
+			marks[i] = polls[i].Load()
+		}
+		racing.Store(1)
+		for i := range marks { // every poller is polling before the racing calls start
+			for spin := 0; polls[i].Load() == marks[i] && spin < 1000000; spin++ {
+				runtime.Gosched()
+			}
+		}
+		for _, in := range prog {
+			wr(in)
+		}
+		racing.Store(0)
+	}
+	stop.Store(1)
+	wg.Wait()
+	for g := range per {
+		hist = append(hist, per[g]...)
+	}
+	hist, reasons = w.quiesce(hist)
+	return hist, w.global, reasons, w.detail
+}
+
+// executeHandoff: mode=5, see the comment on type handoff.  Goroutine 0 is A, 1..g-1 are the probers,
+// g is the driver, g+1 the helper H.
+func executeHandoff(c config) (hist []rec, global []kv, reasons, detail []string) {
+	w := newWorld(c)
+	r := newRng(c.seed*13000027 + uint64(c.run)*32452843 + 29)
+	unit := c.sizeMd == 0
+	serial := 0
+	val := func(res int) int {
+		serial++
+		if unit {
+			return serial
+		}
+		return serial*c.sizeMd + res%c.sizeMd
+	}
+	cur := w.register()
+	drv := func(in input) rec {
+		x := w.do(c.g, in, cur)
+		hist = append(hist, x)
+		return x
+	}
+	hk := c.keys + 1 // H's key
+	newKey := c.keys
+	for act := 0; act < c.ops; act++ {
+		drv(input{kind: 'c'})
+		var ents []kv
+		put := func(res int) {
+			e := kv{len(ents), val(res)}
+			ents = append(ents, e)
+			drv(input{kind: 'p', key: e.k, val: e.v})
+		}
+		// H's entry has size 0 where there are sizes; with unit sizes it takes one of the limit's places
+		room := int(c.limit)
+		if unit {
+			room--
+		}
+		for len(ents) < room && len(ents) < c.keys {
+			put(1)
+		}
+		hres := 0
+		v0 := val(hres)
+		drv(input{kind: 'p', key: hk, val: v0})
+		if len(ents) == 0 {
+			ents = []kv{{hk, 0}} // the cache holds H's entry only
+		}
+		m := len(ents)
+		j := r.intn(m)
+		var opA input
+		var probes []input
+		switch r.intn(8) {
+		case 0: // a Put that has to evict
+			opA = input{kind: 'p', key: newKey, val: val(1)}
+			probes = []input{{kind: 'l'}, {kind: 's'}, {kind: 'g', key: ents[0].k}, {kind: 'g', key: newKey}, {kind: 'h', key: ents[0].k}, {kind: 'h', key: newKey}, {kind: 'l'}, {kind: 's'},
+				{kind: 'r', key: newKey}, {kind: 'p', key: newKey, val: val(1)}}
+		case 1: // a Put that fills the limit exactly
+			opA = input{kind: 'p', key: newKey, val: val(int(c.limit))}
+			if r.intn(3) == 0 {
+				opA.key = ents[j].k
+			}
+			probes = []input{{kind: 'l'}, {kind: 's'}, {kind: 'g', key: opA.key}, {kind: 'h', key: ents[m-1].k}, {kind: 'l'}, {kind: 's'}, {kind: 'g', key: ents[0].k},
+				{kind: 'p', key: ents[0].k, val: val(0)}, {kind: 'l'}}
+		case 2: // a Put that replaces
+			opA = input{kind: 'p', key: ents[j].k, val: val(1)}
+			probes = []input{{kind: 'g', key: ents[j].k}, {kind: 'h', key: ents[j].k}, {kind: 'l'}, {kind: 's'}, {kind: 'r', key: ents[j].k}, {kind: 'p', key: ents[j].k, val: val(1)}, {kind: 'g', key: ents[j].k}}
+		case 3, 4: // Remove (the probers remove, look up and put the same key)
+			opA = input{kind: 'r', key: ents[j].k}
+			probes = []input{{kind: 'r', key: ents[j].k}, {kind: 'h', key: ents[j].k}, {kind: 'g', key: ents[j].k}, {kind: 'l'}, {kind: 's'}, {kind: 'r', key: ents[j].k},
+				{kind: 'p', key: ents[j].k, val: val(1)}, {kind: 'r', key: ents[j].k}}
+		case 5: // Clear
+			opA = input{kind: 'c'}
+			probes = []input{{kind: 'l'}, {kind: 's'}, {kind: 'h', key: ents[j].k}, {kind: 'g', key: ents[m-1].k}, {kind: 'p', key: ents[j].k, val: val(1)}, {kind: 'l'}, {kind: 's'}, {kind: 'r', key: ents[0].k}}
+		case 6: // a reader or a Get; the probers change the cache
+			opA = []input{{kind: 'g', key: ents[j].k}, {kind: 'h', key: ents[j].k}, {kind: 'l'}, {kind: 's'}, {kind: 'g', key: newKey}}[r.intn(5)]
+			probes = []input{{kind: 'r', key: ents[j].k}, {kind: 'p', key: ents[j].k, val: val(1)}, {kind: 'p', key: newKey, val: val(1)}, {kind: 'l'}, {kind: 'c'}, {kind: 'g', key: ents[j].k}, {kind: 's'}}
+		default: // a Put that is refused, a Remove of a key that is not there
+			opA = input{kind: 'r', key: newKey}
+			if !unit && r.intn(2) == 0 {
+				opA = input{kind: 'p', key: ents[j].k, val: val(int(c.limit) + 1)} // sizes are v mod (limit+2) here: over the limit
+			}
+			probes = []input{{kind: 'p', key: newKey, val: val(1)}, {kind: 'r', key: newKey}, {kind: 'g', key: ents[j].k}, {kind: 'l'}, {kind: 's'}}
+		}
+		np := c.g - 1
+		if np < 1 {
+			np = 1
+		}
+		// H's two calls on its own key, and the hook call inside each at which it stops: a Put in the size
+		// function on the new value (the first thing it does) or in the callback for the value it replaces,
+		// a Remove in the callback
+		h := &handoff{startA: make(chan struct{}), startP: make(chan struct{}), a: &prober{}}
+		v1, v2 := val(hres), val(hres)
+		var hops [2]input
+		switch r.intn(3) {
+		case 0:
+			hops[0], h.stops[0] = input{kind: 'p', key: hk, val: v1}, hookCall{'s', v1}
+		case 1:
+			hops[0], h.stops[0] = input{kind: 'p', key: hk, val: v1}, hookCall{'c', v0}
+		default:
+			hops[0], h.stops[0] = input{kind: 'r', key: hk}, hookCall{'c', v0}
+		}
+		switch x := r.intn(3); {
+		case hops[0].kind == 'r' || x == 0:
+			hops[1], h.stops[1] = input{kind: 'p', key: hk, val: v2}, hookCall{'s', v2}
+		case x == 1:
+			hops[1], h.stops[1] = input{kind: 'p', key: hk, val: v2}, hookCall{'c', v1}
+		default:
+			hops[1], h.stops[1] = input{kind: 'r', key: hk}, hookCall{'c', v1}
+		}
+		progs := make([][]input, np)
+		for i := range progs {
+			h.probers = append(h.probers, &prober{})
+			n := 1 + r.intn(3)
+			at := r.intn(len(probes))
+			for k := 0; k < n && at+k < len(probes); k++ {
+				in := probes[at+k]
+				if in.kind == 'p' {
+					in.val = val(int(c.size(in.val))) // every Put of a history has its own value, of the size that was meant
+				}
+				progs[i] = append(progs[i], in)
+			}
+		}
+		w.hand.Store(h)
+		recs := make([][]rec, np+2)
+		var wg sync.WaitGroup
+		wg.Add(np + 2)
+		var once sync.Once
+		release := func() { // if H never reaches its stop (a size function called outside the mutex ...), everybody still runs
+			once.Do(func() {
+				if h.stage.CompareAndSwap(0, 3) {
+					close(h.startA)
+					close(h.startP)
+				}
+			})
+		}
+		go func() {
+			defer wg.Done()
+			defer release()
+			mine := w.register()
+			h.owner.Store(goid())
+			recs[np+1] = append(recs[np+1], w.do(c.g+1, hops[0], mine))
+			recs[np+1] = append(recs[np+1], w.do(c.g+1, hops[1], mine))
+		}()
+		go func() {
+			defer wg.Done()
+			defer h.a.done.Store(1)
+			mine := w.register()
+			h.a.gid.Store(goid())
+			<-h.startA
+			h.a.started.Store(1)
+			recs[0] = append(recs[0], w.do(0, opA, mine))
+		}()
+		for i := 0; i < np; i++ {
+			go func(i int) {
+				defer wg.Done()
+				p := h.probers[i]
+				defer p.done.Store(1)
+				mine := w.register()
+				p.gid.Store(goid())
+				<-h.startP
+				p.started.Store(1)
+				for _, in := range progs[i] {
+					recs[i+1] = append(recs[i+1], w.do(i+1, in, mine))
+				}
+			}(i)
+		}
+		wg.Wait()
+		w.hand.Store(nil)
+		atomic.AddInt64(&handActs, 1)
+		for _, rs := range recs {
+			hist = append(hist, rs...)
+		}
+	}
+	hist, reasons = w.quiesce(hist)
+	return hist, w.global, reasons, w.detail
+}
+
+// bigN draws the number of entries of a big cache: next to a multiple of 64 (63..257), just above 64,
+// or anywhere in 65..maxN.
+func bigN(r *rng, maxN int) int {
+	if maxN < 66 {
+		maxN = 66
+	}
+	n := 65 + r.intn(maxN-64)
+	switch r.intn(3) {
+	case 0:
+		n = 64*(1+r.intn(4)) - 1 + r.intn(3)
+	case 1:
+		n = 65 + r.intn(64)
+	}
+	if n > maxN {
+		n = maxN
+	}
+	return n
+}
+
 func execute(c config) ([]rec, []kv, []string, []string) {
 	switch c.mode {
 	case 1, 2:
 		return executeDuel(c)
 	case 3:
 		return executeStaged(c)
+	case 4:
+		return executePoll(c)
+	case 5:
+		return executeHandoff(c)
 	}
 	return executeRandom(c)
 }
 
-// ---- the sequential reference (state = "k:v;k:v;" least recently used first)
+// ---- the sequential reference (state = the entries, least recently used first; a state is never
+// changed in place: porcupine keeps the states it has seen)
 
 type ent = kv
-
-func decode(s string) []ent {
-	if s == "" {
-		return nil
-	}
-	parts := strings.Split(strings.TrimSuffix(s, ";"), ";")
-	out := make([]ent, len(parts))
-	for i, p := range parts {
-		a := strings.SplitN(p, ":", 2)
-		out[i].k, _ = strconv.Atoi(a[0])
-		out[i].v, _ = strconv.Atoi(a[1])
-	}
-	return out
-}
-
-func encode(es []ent) string {
-	var b strings.Builder
-	for _, e := range es {
-		fmt.Fprintf(&b, "%d:%d;", e.k, e.v)
-	}
-	return b.String()
-}
 
 var nonLRU int64 // a victim that was not the least recently used entry was seen (known finding F2)
 
@@ -959,15 +1573,16 @@ func model(c config) porcupine.Model {
 		}
 		return
 	}
+	// without returns a fresh slice with room for one more entry
 	without := func(es []ent, i int) []ent {
 		out := make([]ent, 0, len(es))
 		out = append(out, es[:i]...)
 		return append(out, es[i+1:]...)
 	}
 	return porcupine.Model{
-		Init: func() interface{} { return "" },
+		Init: func() interface{} { return []ent(nil) },
 		Step: func(st, inp, outp interface{}) (bool, interface{}) {
-			es := decode(st.(string))
+			es := st.([]ent)
 			in := inp.(input)
 			out := outp.(output)
 			switch in.kind {
@@ -980,16 +1595,28 @@ func model(c config) porcupine.Model {
 					return false, st
 				}
 				ev := out.ev
+				es = append(make([]ent, 0, len(es)+1), es...)
 				if i := find(es, in.key); i >= 0 {
 					if len(ev) == 0 || ev[0] != es[i] {
 						return false, st
 					}
 					ev = ev[1:]
-					es = without(es, i)
+					es = append(es[:i], es[i+1:]...)
 				}
-				for _, victim := range ev {
-					if total(es)+vs <= c.limit {
+				t := total(es)
+				// the victims: mostly a prefix of the recency list (then one pass), anywhere otherwise (F2)
+				n := 0
+				for n < len(ev) && n < len(es) && es[n] == ev[n] {
+					if t+vs <= c.limit {
 						return false, st // evicted although the value fits
+					}
+					t -= c.size(es[n].v)
+					n++
+				}
+				es = es[n:]
+				for _, victim := range ev[n:] {
+					if t+vs <= c.limit {
+						return false, st
 					}
 					i := find(es, victim.k)
 					if i < 0 || es[i] != victim {
@@ -998,13 +1625,13 @@ func model(c config) porcupine.Model {
 					if i != 0 {
 						atomic.StoreInt64(&nonLRU, 1)
 					}
-					es = without(es, i)
+					t -= c.size(victim.v)
+					es = append(es[:i], es[i+1:]...)
 				}
-				if total(es)+vs > c.limit {
+				if t+vs > c.limit {
 					return false, st
 				}
-				es = append(append([]ent(nil), es...), ent{in.key, in.val})
-				return true, encode(es)
+				return true, append(es, ent{in.key, in.val})
 			case 'g':
 				i := find(es, in.key)
 				if i < 0 {
@@ -1013,8 +1640,11 @@ func model(c config) porcupine.Model {
 				if !out.ok || out.val != es[i].v || len(out.ev) != 0 {
 					return false, st
 				}
+				if i == len(es)-1 {
+					return true, st
+				}
 				e := es[i]
-				return true, encode(append(without(es, i), e))
+				return true, append(without(es, i), e)
 			case 'h':
 				return out.ok == (find(es, in.key) >= 0) && len(out.ev) == 0, st
 			case 'r':
@@ -1025,7 +1655,7 @@ func model(c config) porcupine.Model {
 				if !out.ok || len(out.ev) != 1 || out.ev[0] != es[i] {
 					return false, st
 				}
-				return true, encode(without(es, i))
+				return true, without(es, i)
 			case 'l':
 				return out.n == int64(len(es)) && len(out.ev) == 0, st
 			case 's':
@@ -1047,11 +1677,22 @@ func model(c config) porcupine.Model {
 						return false, st
 					}
 				}
-				return true, ""
+				return true, []ent(nil)
 			}
 			return false, st
 		},
-		Equal: func(a, b interface{}) bool { return a.(string) == b.(string) },
+		Equal: func(a, b interface{}) bool {
+			x, y := a.([]ent), b.([]ent)
+			if len(x) != len(y) {
+				return false
+			}
+			for i := range x {
+				if x[i] != y[i] {
+					return false
+				}
+			}
+			return true
+		},
 	}
 }
 
@@ -1084,16 +1725,18 @@ func check(c config, hist []rec, global []kv, slice time.Duration) (reasons []st
 		case 'l':
 			if r.out.n < 0 {
 				reasons = append(reasons, "len-negative")
-			} else if r.out.n > int64(c.keys)+1 {
+			} else if r.out.n > int64(c.keyspace()) {
 				reasons = append(reasons, "len-exceeds-number-of-keys")
 			}
 		}
 	}
-	for i := range hist {
-		for j := i + 1; j < len(hist); j++ {
-			if hist[i].g != hist[j].g && hist[i].call < hist[j].ret && hist[j].call < hist[i].ret {
+	byCall := append([]rec(nil), hist...)
+	sort.Slice(byCall, func(i, j int) bool { return byCall[i].call < byCall[j].call })
+	for i := range byCall {
+		for j := i + 1; j < len(byCall) && byCall[j].call < byCall[i].ret; j++ {
+			if byCall[i].g != byCall[j].g {
 				overlaps++
-				tagOverlap(hist[i].in, hist[j].in)
+				tagOverlap(byCall[i].in, byCall[j].in)
 			}
 		}
 	}
@@ -1348,7 +1991,7 @@ func main() {
 	runs := flag.Int("runs", 100, "histories at most")
 	minRuns := flag.Int("minruns", 10, "histories at least (whatever the budget)")
 	budget := flag.Float64("budget", 0, "seconds after which no further history is started (0 = none)")
-	mode := flag.Int("mode", 0, "0 random workload, 1 contended same-key phases, 2 readers against evicting Put/Clear/Remove, 3 staged (handshake through the hooks)")
+	mode := flag.Int("mode", 0, "0 random workload, 1 contended same-key phases, 2 readers against evicting Put/Clear/Remove, 3 staged (handshake through the hooks), 4 pollers against one writer (big caches, exactly-filling Puts), 5 handoff (the mutex in starvation mode: every Unlock inside a call lets a prober in)")
 	procs := flag.Int("procs", 0, "GOMAXPROCS (0 = leave)")
 	gor := flag.Int("goroutines", 0, "goroutines (0 = 2..4)")
 	nops := flag.Int("ops", 0, "random: calls per goroutine (0 = 5..9); duel: phases (0 = 4..8)")
@@ -1359,6 +2002,7 @@ func main() {
 	emit := flag.String("emitlin", "", "append linearizations of sampled histories to this file (for bin/incoq-cacheconc)")
 	emitN := flag.Int("emitn", 100, "number of linearizations to emit")
 	emitEvery := flag.Int("emitevery", 7, "sample every n-th history")
+	maxN := flag.Int("maxn", 300, "entries at most in the big caches of modes 3 and 4")
 	st := flag.Bool("selftest", false, "check the checker")
 	flag.Parse()
 	if *st {
@@ -1417,9 +2061,65 @@ func main() {
 				c.ops = 3 + r.intn(4)
 			}
 			c.limit = int64(1 + r.intn(4))
+			big := r.intn(3) == 0
+			if big {
+				// more than 64 entries: Clear and Puts with many victims, stopped after k evictions
+				c.limit = int64(bigN(r, *maxN))
+				if *nops == 0 {
+					c.ops = 1 + r.intn(3)
+				}
+			}
 			if c.keys == 0 {
 				c.keys = int(c.limit) + 2
 			}
+			if big {
+				if r.intn(2) == 0 {
+					c.sizeMd = int(c.limit) + 1
+				}
+				return c
+			}
+		} else if c.mode == 5 {
+			// A, 1..3 probers and the helper; small caches; sizes 1 or v mod (limit+2) (0 = no size, limit = fills exactly, limit+1 = refused)
+			if *gor == 0 {
+				c.g = 2 + r.intn(3)
+			}
+			if c.ops == 0 {
+				c.ops = 3 + r.intn(4)
+			}
+			c.limit = int64(1 + r.intn(5))
+			if c.keys == 0 {
+				c.keys = int(c.limit) + 1
+			}
+			if r.intn(3) != 0 {
+				c.sizeMd = int(c.limit) + 2
+			}
+			return c
+		} else if c.mode == 4 {
+			// one writer, 1..3 pollers; the cache holds `keys` entries when a round's racing calls start:
+			// 2..6 (many rounds) or 65..300 (few rounds); sizes 1, or v mod (limit+1) so that one value fills the limit
+			if *gor == 0 {
+				c.g = 2 + r.intn(3)
+			}
+			small := r.intn(2) == 0
+			if c.keys == 0 {
+				if small {
+					c.keys = 2 + r.intn(5)
+				} else {
+					c.keys = bigN(r, *maxN)
+				}
+			}
+			if c.ops == 0 {
+				if c.keys <= 8 {
+					c.ops = 4 + r.intn(8)
+				} else {
+					c.ops = 1 + r.intn(2)
+				}
+			}
+			c.limit = int64(c.keys)
+			if r.intn(3) != 0 {
+				c.sizeMd = int(c.limit) + 1
+			}
+			return c
 		} else {
 			if c.ops == 0 {
 				c.ops = 5 + r.intn(5)
@@ -1483,9 +2183,9 @@ func main() {
 			dump(hist)
 		}
 	}
-	fmt.Printf("STATS mode=%d runs=%d ops=%d fails=%d nonlinearizable=%d inconclusive=%d nonLRUVictims=%d overlaps=%d procs=%d wall=%.1f contended=%s gates=%d probesInside=%d gaveUp=%d\n",
+	fmt.Printf("STATS mode=%d runs=%d ops=%d fails=%d nonlinearizable=%d inconclusive=%d nonLRUVictims=%d overlaps=%d procs=%d wall=%.1f contended=%s gates=%d probesInside=%d gaveUp=%d handoffActs=%d handoffArmed=%d\n",
 		modeOf(fixed, *mode), done, totalOps, fails, nonlin, inconcl, atomic.LoadInt64(&nonLRU), overlaps, runtime.GOMAXPROCS(0), time.Since(t0).Seconds(), tagString(),
-		atomic.LoadInt64(&gateFired), atomic.LoadInt64(&gateProbesInside), atomic.LoadInt64(&gateGaveUp))
+		atomic.LoadInt64(&gateFired), atomic.LoadInt64(&gateProbesInside), atomic.LoadInt64(&gateGaveUp), atomic.LoadInt64(&handActs), atomic.LoadInt64(&handArmed))
 	if fails > 0 {
 		os.Exit(1)
 	}
